@@ -208,27 +208,36 @@ def run(ctx):
                   'tpkt::Client::write: one Link::write of [tpkt_header(message.length() as u16), message], both from the same message',
                   where(tw, lws[0][1].block),
                   'tpkt::Client::write does not emit exactly one frame whose header length is computed from the message it carries')
-        # R14.4 guard: Gt(length(message), C) false with C + K <= 0xffff
+        # R14.4 guard: a comparison that is affine in length(message) and whose surviving edge implies length <= C, with C + K <= 0xffff
+        import poly as _poly
+        import math as _math
         C = None
+        hl_atom = None
+        if hl is not None:
+            ph = _poly.poly(hl)
+            if len(ph) == 1 and list(ph.values())[0] == 1 and len(list(ph)[0]) == 1:
+                hl_atom = list(ph)[0]
         for br in path_branches(st):
             e = fold(br[2])
-            if e[0] == 'bin' and e[1] in ('Gt', 'Ge', 'Lt', 'Le') and hl is not None:
-                a, b = e[2], e[3]
-                op = e[1]
-                if b[0] != 'const' and a[0] == 'const':
-                    a, b = b, a
+            if e[0] == 'bin' and e[1] in ('Gt', 'Ge', 'Lt', 'Le') and hl_atom is not None:
+                d = _poly.padd(_poly.poly(e[2]), _poly.poly(e[3]), -1)          # lhs - rhs
+                if set(d) - {hl_atom, ()}:
+                    continue
+                c1, c0 = d.get(hl_atom, 0), d.get((), 0)
+                if c1 == 0:
+                    continue
+                op = e[1] if branch_truth(br) else {'Gt': 'Le', 'Ge': 'Lt', 'Lt': 'Ge', 'Le': 'Gt'}[e[1]]
+                # c1*L + c0 op 0 holds on this path
+                if c1 < 0:
+                    c1, c0 = -c1, -c0
                     op = {'Gt': 'Lt', 'Ge': 'Le', 'Lt': 'Gt', 'Le': 'Ge'}[op]
-                if b[0] == 'const' and same_pure(a, hl):
-                    t = branch_truth(br)
-                    # the surviving edge implies length <= bound
-                    if op == 'Gt' and not t:
-                        C = b[1]
-                    elif op == 'Ge' and not t:
-                        C = b[1] - 1
-                    elif op == 'Le' and t:
-                        C = b[1]
-                    elif op == 'Lt' and t:
-                        C = b[1] - 1
+                if op == 'Le':
+                    bound = _math.floor(-c0 / c1)
+                elif op == 'Lt':
+                    bound = _math.ceil(-c0 / c1) - 1
+                else:
+                    continue
+                C = bound if C is None else min(C, bound)
         ctx.check(C is not None and K is not None and C + K <= 0xFFFF, 'R14.4', 'tpkt_write:guard',
                   'the narrowing `length as u16` and tpkt_header\'s +%s are dominated by the refusal of length > %s (%s + %s <= 65535)'
                   % (K, C, C, K), where(tw, lws[0][1].block),
